@@ -21,7 +21,7 @@ from .shapes import Shapes
 from .contracts import Registry
 from .core import Ctx, VCError, base_axioms
 from .verify import Executor
-from .execcont import card_axioms
+from .execcont import card_axioms, bsum_axioms
 from .execlib import list_hash_axioms
 from . import solve
 
@@ -129,7 +129,7 @@ class Run:
         return out
 
     def axioms(self):
-        ax = base_axioms() + self.ctx.literal_axioms() + card_axioms() + list_hash_axioms() + list(self.ctx.heap_axioms)
+        ax = base_axioms() + self.ctx.literal_axioms() + card_axioms() + list_hash_axioms() + list(self.ctx.heap_axioms) + bsum_axioms()
         for fn in self.R.axioms:
             ax.extend(fn(self.ctx))
         return ax
